@@ -766,7 +766,7 @@ def min_max_mean_std(
             x6 = zero
         else:
             x6 = (ml - one) / p + one
-        L[i] = max(max(max(x2, x3), x6), zero) * ran + minimum
+        L[i] = min(max(max(max(x2, x3), x6), zero), one) * ran + minimum
 
         p = (i + 1) / n
         if p >= one:
@@ -789,7 +789,13 @@ def min_max_mean_std(
             x6 = one
         else:
             x6 = mr / (one - p)
-        R[i] = min(min(min(x2, x3), x6), one) * ran + minimum
+        R[i] = max(min(min(min(x2, x3), x6), one), zero) * ran + minimum
+
+    # a quantile function is monotone: the running maximum of lower bounds and the
+    # running minimum (from the top) of upper bounds are bounds too, and are free of
+    # the rounding jitter that otherwise breaks monotonicity at maximal dispersion
+    L = np.maximum.accumulate(np.array(L))
+    R = np.minimum.accumulate(np.array(R)[::-1])[::-1]
 
     v = s**2
     return Staircase(
